@@ -55,6 +55,11 @@ def float_spellings(ty):
     T = ty
     out = [
         ("literal", "2.5", F(5, 2), []), ("literal-underscore", "1_0.5", F(21, 2), []), ("literal-exp", "1e3", F(1000), []), ("literal-exp-neg", "2.5e-3", F(25, 10000), []),
+        # long literals next to an f32 rounding midpoint (1 + 2^-24): rounded once, straight to the inner type, as rustc does for a typed literal
+        ("literal-long-below-midpoint", "1.00000005960464477", F(100000005960464477, 10 ** 17), []),
+        ("literal-long-above-midpoint", "1.000000059604644775390626", F(1000000059604644775390626, 10 ** 24), []),
+        ("literal-long-at-f64-resolution", "0.30000000000000004", F(30000000000000004, 10 ** 17), []),
+        ("literal-long-many-digits", "2.50000000000000000000000000000000000001", F(5, 2) + F(1, 10 ** 38), []),
         ("literal-int", "10", F(10), []), ("literal-trailing-dot", "3.", F(3), []), ("literal-suffixed", f"2.5{ty}", F(5, 2), []), ("literal-int-suffixed", f"3{ty}", F(3), []),
         ("negative-literal", "-2.5", F(-5, 2), []), ("negative-int-literal", "-10", F(-10), []), ("negative-literal-spaced", "- 2.5", F(-5, 2), []),
         ("const", "K", F(5, 2), c), ("negated-const", "-K", F(-5, 2), c), ("paren-const", "(K)", F(5, 2), c), ("paren-negated", "(-K)", F(-5, 2), c), ("negated-paren", "-(K)", F(-5, 2), c),
@@ -128,7 +133,7 @@ def build(tier, seed):
     for ti, ty in enumerate(FLOAT_TYPES):
         for si, (cls, text, ex, sup) in enumerate(float_spellings(ty)):
             for ki, kind in enumerate(KINDS):
-                if (si + ki + ti) % (2 if tier == "quick" else 1) != 0 and cls not in ("negated-const", "literal-led-minus", "negative-literal-plus-const") and "named" not in cls:
+                if (si + ki + ti) % (2 if tier == "quick" else 1) != 0 and cls not in ("negated-const", "literal-led-minus", "negative-literal-plus-const") and "named" not in cls and "literal-long" not in cls:
                     continue
                 d = new(inner_float(ty), "float:" + cls)
                 d.support += sup
